@@ -80,6 +80,12 @@ def attribute(pid, wd, fail, tag):
     # after a clean reload (in a run that the original would have passed) belongs to it as well
     if groups and any(e.get("ev") == "crash" and e.get("reload") for e in fail["run_events"][:fail["pos_in_run"]]):
         groups.add("C12")
+    # C09: "once completions arrive, in any order and after any delay, exactly the held messages are released":
+    # something still pending at the end of a wound-down run in which monitor writes completed late was held
+    # for one of them and never released
+    if ev.get("ev") == "proj" and ev.get("final") and groups & {"C01", "C10"} and \
+            any(e.get("ev") == "complete" for e in fail["run_events"][:fail["pos_in_run"]]):
+        groups.add("C09")
     if ev.get("ev") == "msg" and groups & {"C01", "C05"}:
         prior = fail["run_events"][:fail["pos_in_run"] - 1]
         for e in reversed(prior):
